@@ -16,6 +16,10 @@ PART = {}
 
 META = {
     'engine': 'E1 CrossHair 0.0.110 + z3',
+    'technique': 'symbolic engine (CrossHair/z3) drives the exploration of integer windows, text families and bond patterns; because '
+                 'format() is a C boundary every value is realised per path and the write/read round trip runs natively on it',
+    'level_text': 'Bounded exploration decided value by value inside stated windows/families (field-width boundaries, serials crossing '
+                  '9999/10000, degrees up to 5); nothing is claimed outside them.',
     'functions': ['vermouth.pdb.pdb.write_pdb_string', 'vermouth.pdb.pdb.PDBParser.parse/_atom/conect/do_conect/_do_single_conect/'
                   '_finish_molecule/finalize', 'vermouth.truncating_formatter.TruncFormatter.format_field',
                   'vermouth.gmx.gro.write_gro', 'vermouth.gmx.gro.read_gro'],
